@@ -97,11 +97,16 @@ impl Consts {
                 let ident = defs.var_name(id_2.def_id);
                 let span_1 = defs.var_decl_span(id_1.def_id).expect("missing span for def_1");
                 let span_2 = defs.var_decl_span(id_2.def_id).expect("missing span for def_2");
-                return Err(emitter.emit(error!(
-                    message("ambiguous value for {} '{}'", noun, ident),
-                    primary(span_1, "definition with value {}", value_1),
-                    primary(span_2, "definition with value {}", value_2),
-                )));
+                let mut diag = error!(message("ambiguous value for {} '{}'", noun, ident));
+                for (span, value) in vec![(span_1, value_1), (span_2, value_2)] {
+                    if span == Span::NULL {
+                        // (a built-in definition such as `true`; it has no source location to show)
+                        diag.note(format!("the built-in definition has value {}", value));
+                    } else {
+                        diag.primary(span, format!("definition with value {}", value));
+                    }
+                }
+                return Err(emitter.emit(diag));
             }
         }
         Ok(())
